@@ -25,7 +25,14 @@
 //!          `from_error`, `from_request_error`, `service`, `exception`; `h<mask>` = `.handle(<mask predicate>)`; `n` =
 //!          `.name(..)`. Any number of each, in any order (a chain without a strategy setter is ignored: `build()`
 //!          would panic). Each setter gets its own closure (an own counter for every `value_fn`).
-//! arrive: `arrive <c> tag=<t> inner=<lat>:<out>[,<lat>:<out> for the backup call] [post=<steps>] [svc=<k>] [reuse=1]`
+//! arrive: `arrive <c> tag=<t> inner=<lat>:<out>[,<lat>:<out> for the backup call] [post=<steps>] [svc=<k>] [reuse=1] [gen=<g>]`
+//!          The request type (`GReq`) has an OBSERVABLE `Clone`: it carries a generation counter that `clone()` bumps
+//!          (a copy is marked as a copy: an attempt counter, a replay flag, a one-shot body that a copy does not have).
+//!          `gen=<g>`: the generation of the request the caller submits (default 0: an original; g > 0: the caller
+//!          itself submits a copy, e.g. a retry's). Everything that is handed a request logs which generation it
+//!          got: `reqgen inner <c> <g>` (the wrapped service, right before its `inner_call` line), `reqgen backup <c> <g>`
+//!          (the backup closure, right before the backup call), `reqgen from_request_error <c> <g>` /
+//!          `reqgen ufrom_request_error <c> <g>` (the lower / upper layer's function, right before its `strategy` line).
 //!          the caller clones the service and polls it ready ONCE: pending -> `result c notready`
 //!          (it gives up), error -> `resp`/`result` lines with that error rendered like a call error
 //!          (so a transformed or otherwise handled readiness error is visible), ready -> the call.
@@ -57,10 +64,48 @@ use tower_resilience_fallback::{Fallback, FallbackConfigBuilder, FallbackError, 
 
 /// the error type of the lower layer = the inner error type of the upper layer
 type MidErr = FallbackError<IErr>;
-type LowLayer = FallbackLayer<Req, Resp, IErr>;
-type UpLayer = FallbackLayer<Req, Resp, MidErr>;
-type Low = Fallback<Inner, Req, Resp, IErr>;
-type Up = Fallback<Low, Req, Resp, MidErr>;
+type LowLayer = FallbackLayer<GReq, Resp, IErr>;
+type UpLayer = FallbackLayer<GReq, Resp, MidErr>;
+type Low = Fallback<GInner, GReq, Resp, IErr>;
+type Up = Fallback<Low, GReq, Resp, MidErr>;
+
+/// A request whose copies can be told from the original: `clone()` bumps the generation.
+#[derive(Debug)]
+struct GReq {
+    req: Req,
+    gen: u64,
+}
+impl Clone for GReq {
+    fn clone(&self) -> GReq {
+        GReq { req: self.req.clone(), gen: self.gen + 1 }
+    }
+}
+impl GReq {
+    fn new(c: usize, kv: &Kv) -> GReq {
+        GReq { req: Req::new(c, kv), gen: kv.u64("gen", 0) }
+    }
+    /// whoever is handed a request logs which generation it got
+    fn seen_by(&self, who: &str) {
+        log(format!("reqgen {} {} {}", who, self.req.c, self.gen));
+    }
+}
+
+/// The scripted inner service behind the generation-carrying request type: logs the generation it is handed, then
+/// the plain scripted service does the rest (readiness, clones and drops are the scripted service's own).
+#[derive(Clone)]
+struct GInner(Inner);
+impl Service<GReq> for GInner {
+    type Response = Resp;
+    type Error = IErr;
+    type Future = <Inner as Service<Req>>::Future;
+    fn poll_ready(&mut self, cx: &mut std::task::Context<'_>) -> std::task::Poll<Result<(), IErr>> {
+        self.0.poll_ready(cx)
+    }
+    fn call(&mut self, rq: GReq) -> Self::Future {
+        rq.seen_by("inner");
+        self.0.call(rq.req)
+    }
+}
 
 /// an error payload as (kind, v)
 trait Pay: Clone + 'static {
@@ -150,7 +195,7 @@ fn strategy_in_force(kv: &Kv) -> (String, u64) {
 
 fn build_lower(kv: &Kv) -> LowLayer {
     let val = kv.u64("val", 0);
-    type B = FallbackConfigBuilder<Req, Resp, IErr>;
+    type B = FallbackConfigBuilder<GReq, Resp, IErr>;
     let strategy_name = kv.str("strategy", "value");
     let bready = kv.get("bready").map(|x| x.to_string());
     let handle_mask = kv.opt_u64("handle");
@@ -169,7 +214,9 @@ fn build_lower(kv: &Kv) -> LowLayer {
         log(format!("strategy from_error {} {}", e.kind, e.v));
         Resp { v: e.v, c: 0, tag: e.kind as u64 }
     };
-    let from_request_error = |rq: &Req, e: &IErr| {
+    let from_request_error = |rq: &GReq, e: &IErr| {
+        rq.seen_by("from_request_error");
+        let rq = &rq.req;
         log(format!("strategy from_request_error {} {} {} {}", rq.c, rq.tag, e.kind, e.v));
         Resp { v: e.v, c: rq.c, tag: rq.tag * 100 + e.kind as u64 }
     };
@@ -181,20 +228,22 @@ fn build_lower(kv: &Kv) -> LowLayer {
     // (`|req| client.call(req)`), so WHEN the layer invokes the closure is visible in the log
     let backup_plain = {
         let backup = Inner::labelled("b");
-        move |rq: Req| {
+        move |rq: GReq| {
             let mut s = backup.clone();
-            s.call(rq)
+            rq.seen_by("backup");
+            s.call(rq.req)
         }
     };
     // with one: `|req| async move { client.ready().await?.call(req).await }`
     let backup_scripted = {
         let mut backup = Inner::strict(bready.as_deref().unwrap_or(""));
         backup.label = "b";
-        move |rq: Req| {
+        move |rq: GReq| {
             let mut s = backup.clone();
             async move {
                 std::future::poll_fn(|cx| s.poll_ready(cx)).await?;
-                s.call(rq).await
+                rq.seen_by("backup");
+                s.call(rq.req).await
             }
         }
     };
@@ -275,7 +324,7 @@ fn build_upper(kv: &Kv) -> Option<UpLayer> {
         return None;
     }
     let val = kv.u64("uval", 0);
-    type B = FallbackConfigBuilder<Req, Resp, MidErr>;
+    type B = FallbackConfigBuilder<GReq, Resp, MidErr>;
     let mask = kv.opt_u64("uhandle");
     let value = Resp { v: val, c: 0, tag: 0 };
     let value_fn = {
@@ -291,7 +340,9 @@ fn build_upper(kv: &Kv) -> Option<UpLayer> {
         log(format!("ustrategy from_error {} {}", k, v));
         Resp { v, c: 0, tag: k }
     };
-    let from_request_error = |rq: &Req, e: &MidErr| {
+    let from_request_error = |rq: &GReq, e: &MidErr| {
+        rq.seen_by("ufrom_request_error");
+        let rq = &rq.req;
         let (k, v) = e.kv();
         log(format!("ustrategy from_request_error {} {} {} {}", rq.c, rq.tag, k, v));
         Resp { v, c: rq.c, tag: rq.tag * 100 + k }
@@ -400,7 +451,7 @@ impl Adapter {
         if !self.svcs.contains_key(&k) {
             let inner = self.inner.as_ref()?.clone();
             let layer = self.layer.as_ref()?;
-            let low = if k % 2 == 1 { layer.clone().layer(inner) } else { layer.layer(inner) };
+            let low = if k % 2 == 1 { layer.clone().layer(GInner(inner)) } else { layer.layer(GInner(inner)) };
             let svc = match self.upper.as_ref() {
                 None => Svc::One(low),
                 Some(u) => Svc::Two(if k % 2 == 1 { u.clone().layer(low) } else { u.layer(low) }),
@@ -458,12 +509,12 @@ fn post_err<E: Pay>(c: usize, mut e: FallbackError<E>, steps: &[u8]) -> (String,
 /// one request on one service handle, the way a caller makes it
 fn make_call<S, E>(handle: &mut S, reuse: bool, c: usize, kv: &Kv) -> Option<CallFut>
 where
-    S: Service<Req, Response = Resp, Error = FallbackError<E>> + Clone,
+    S: Service<GReq, Response = Resp, Error = FallbackError<E>> + Clone,
     S::Future: 'static,
     E: Pay,
 {
     let post: Vec<u8> = kv.str("post", "").into_bytes();
-    let req = Req::new(c, kv);
+    let req = GReq::new(c, kv);
     // by default the call is made on a clone that is dropped as soon as the response future exists;
     // `reuse=1`: on the long-lived handle itself
     let mut tmp = if reuse { None } else { Some(handle.clone()) };
@@ -530,23 +581,23 @@ impl Mw for Adapter {
         }
         // a strategy value built by hand (the variants and the function types are public), cloned; the CLONE is used
         let (name, val) = strategy_in_force(&self.kv);
-        let original: FallbackStrategy<Req, Resp, IErr> = match name.as_str() {
+        let original: FallbackStrategy<GReq, Resp, IErr> = match name.as_str() {
             "value_fn" => FallbackStrategy::ValueFn(Arc::new(move || Resp { v: val, c: 0, tag: 1 })),
             "from_error" => FallbackStrategy::FromError(Arc::new(|e: &IErr| Resp { v: e.v, c: 0, tag: e.kind as u64 })),
-            "from_request_error" => FallbackStrategy::FromRequestError(Arc::new(|rq: &Req, e: &IErr| Resp {
+            "from_request_error" => FallbackStrategy::FromRequestError(Arc::new(|rq: &GReq, e: &IErr| Resp {
                 v: e.v,
-                c: rq.c,
-                tag: rq.tag * 100 + e.kind as u64,
+                c: rq.req.c,
+                tag: rq.req.tag * 100 + e.kind as u64,
             })),
-            "service" => FallbackStrategy::Service(Arc::new(|rq: Req| {
-                Box::pin(std::future::ready(Ok::<Resp, IErr>(Resp { v: rq.tag, c: rq.c, tag: rq.tag })))
+            "service" => FallbackStrategy::Service(Arc::new(|rq: GReq| {
+                Box::pin(std::future::ready(Ok::<Resp, IErr>(Resp { v: rq.req.tag, c: rq.req.c, tag: rq.req.tag })))
             })),
             "exception" => FallbackStrategy::Exception(ProbeExc::make()),
             _ => FallbackStrategy::Value(Resp { v: val, c: 0, tag: 0 }),
         };
         let copy = original.clone();
         drop(original);
-        let rq = Req::new(kv.u64("c", 0) as usize, kv);
+        let rq = GReq::new(kv.u64("c", 0) as usize, kv);
         let e = IErr { kind: kv.u64("kind", 0) as u8, v: kv.u64("v", 0) };
         let ok = |r: Resp| format!("ok {} {} {}", r.v, r.c, r.tag);
         let (variant, out) = match copy {
